@@ -437,5 +437,25 @@ func init() {
 		} else {
 			fail("func getNumFmtID")
 		}
+		// getCustomNumFmtID: custom format codes are compared for exact equality
+		if fd := funcDecl("", "getCustomNumFmtID"); fd != nil {
+			body := src(fd.Body)
+			n := 0
+			ast.Inspect(fd.Body, func(x ast.Node) bool {
+				if be, ok := x.(*ast.BinaryExpr); ok && be.Op == token.EQL {
+					if strings.Contains(src(be), "FormatCode") && strings.Contains(src(be), "CustomNumFmt") {
+						n++
+					}
+				}
+				return true
+			})
+			if n == 1 && !strings.Contains(body, "EqualFold") && !strings.Contains(body, "ToLower") && !strings.Contains(body, "ToUpper") && !strings.Contains(body, "TrimSpace") {
+				w.WriteString("/-! styles.go getCustomNumFmtID: `numFmt.FormatCode == *style.CustomNumFmt` (exact byte equality) -/\ndef customCodeExactEq : Bool := true\n\n")
+			} else {
+				fail("getCustomNumFmtID: exact comparison `numFmt.FormatCode == *style.CustomNumFmt`")
+			}
+		} else {
+			fail("func getCustomNumFmtID")
+		}
 	})
 }
